@@ -57,6 +57,9 @@ type Env struct {
 var envSeq int32 = int32(time.Now().UnixNano()%200) + 1
 
 // freePort finds a port that is free on the first address of the subnet.
+// FreePort finds a port that is free on the given address.
+func FreePort(ip string) (int, error) { return freePort(ip) }
+
 func freePort(ip string) (int, error) {
 	ln, err := net.Listen("tcp", ip+":0")
 	if err != nil {
